@@ -5,7 +5,11 @@
 //! wire form (topic string + prost bytes) and injects faults.
 //!
 //! The case is a schedule of steps (the case descriptor, replayable):
-//!   `to=<reorder timeout ms> | <step> <step> …`
+//!   `to=<reorder timeout ms> [st=<0|1>] | <step> <step> …`     st=1: the host's recording stores reject
+//!                       data for metric names their last birth did not define (UnknownMetric)
+//!   mset<k>             from the next birth on the node and its devices register the extra metric `x<k>`
+//!                       (0 = none, the previous extra one is dropped); node publishes with >= 2 metrics
+//!                       carry the extra metric of the node's latest birth. Rendered `eon stim rule mset <k>`.
 //!   non / noff          node connection reported Online / broken (registered will -> NDEATH to the host)
 //!   hon / hoff          host connection reported Online / broken (everything addressed to it is lost)
 //!   reg<d> unreg<d> en<d> dis<d> drb<d> nrb                     node-side user activity
@@ -65,6 +69,7 @@ enum Step {
     Hold,
     Adv(u64),
     DeliverAll,
+    MSet(u32),
 }
 
 impl Step {
@@ -91,6 +96,7 @@ impl Step {
             Step::Hold => "hold".into(),
             Step::Adv(ms) => format!("adv{}", ms),
             Step::DeliverAll => "da".into(),
+            Step::MSet(k) => format!("mset{}", k),
         }
     }
 
@@ -137,6 +143,11 @@ impl Step {
                     Step::En(k as u32)
                 } else if let Some(k) = num("adv") {
                     Step::Adv(k)
+                } else if let Some(k) = num("mset") {
+                    if k > eon::MSET_MAX as u64 {
+                        return None;
+                    }
+                    Step::MSet(k as u32)
                 } else {
                     return None;
                 }
@@ -170,22 +181,44 @@ impl Step {
             Step::Hold => "hold",
             Step::Adv(_) => "time-passes",
             Step::DeliverAll => "deliver-all",
+            Step::MSet(_) => "metric-set-change",
         }
     }
 }
 
-fn show_desc(to: u64, steps: &[Step]) -> String {
-    format!("to={} | {}", to, steps.iter().map(|s| s.show()).collect::<Vec<_>>().join(" "))
+/// case configuration: reorder timeout, strict recording stores
+#[derive(Clone, Copy, Debug, PartialEq)]
+struct Cfg {
+    to: u64,
+    strict: bool,
 }
 
-fn parse_desc(desc: &str) -> Option<(u64, Vec<Step>)> {
+fn show_desc(cfg: Cfg, steps: &[Step]) -> String {
+    format!("to={}{} | {}", cfg.to, if cfg.strict { " st=1" } else { "" }, steps.iter().map(|s| s.show()).collect::<Vec<_>>().join(" "))
+}
+
+fn parse_desc(desc: &str) -> Option<(Cfg, Vec<Step>)> {
     let (head, tail) = desc.split_once('|')?;
-    let to: u64 = head.trim().strip_prefix("to=")?.parse().ok()?;
+    let mut cfg = Cfg { to: 0, strict: false };
+    let mut seen_to = false;
+    for t in head.split_whitespace() {
+        if let Some(x) = t.strip_prefix("to=") {
+            cfg.to = x.parse().ok()?;
+            seen_to = true;
+        } else if let Some(x) = t.strip_prefix("st=") {
+            cfg.strict = x == "1";
+        } else {
+            return None;
+        }
+    }
+    if !seen_to {
+        return None;
+    }
     let mut v = vec![];
     for t in tail.split_whitespace() {
         v.push(Step::parse(t)?);
     }
-    Some((to, v))
+    Some((cfg, v))
 }
 
 // ------------------------------------------------------------------------------------------
@@ -265,7 +298,7 @@ fn qos1_of(kind: &Kind, topic: &str) -> Option<bool> {
 }
 
 /// the `host ev …` request body (without ` now=`) for an event decoded from the wire
-fn render_host_ev(ev: &Event) -> Option<String> {
+fn render_host_ev(ev: &Event, ans: &str) -> Option<String> {
     match ev {
         Event::Node(nm) => {
             let p = &nm.message.payload;
@@ -274,7 +307,7 @@ fn render_host_ev(ev: &Event) -> Option<String> {
             match nm.message.kind {
                 MessageKind::Birth => Some(format!("ev {} nbirth ts={} bd={} id={} ans=ok", n, p.timestamp?, bd_of(p)?, id)),
                 MessageKind::Death => Some(format!("ev {} ndeath bd={}", n, bd_of(p)?)),
-                MessageKind::Data => Some(format!("ev {} ndata seq={} ts={} id={} ans=ok", n, p.seq?, p.timestamp?, id)),
+                MessageKind::Data => Some(format!("ev {} ndata seq={} ts={} id={} ans={}", n, p.seq?, p.timestamp?, id, ans)),
                 _ => None,
             }
         }
@@ -286,7 +319,7 @@ fn render_host_ev(ev: &Event) -> Option<String> {
             match dm.message.kind {
                 MessageKind::Birth => Some(format!("ev {} dbirth dev={} seq={} ts={} id={} ans=ok", n, d, p.seq?, p.timestamp?, id)),
                 MessageKind::Death => Some(format!("ev {} ddeath dev={} seq={} ts={} id={}", n, d, p.seq?, p.timestamp?, id)),
-                MessageKind::Data => Some(format!("ev {} ddata dev={} seq={} ts={} id={} ans=ok", n, d, p.seq?, p.timestamp?, id)),
+                MessageKind::Data => Some(format!("ev {} ddata dev={} seq={} ts={} id={} ans={}", n, d, p.seq?, p.timestamp?, id, ans)),
                 _ => None,
             }
         }
@@ -332,6 +365,7 @@ struct World {
     hub_a: Hub,
     hub_b: Hub,
     to: u64,
+    strict: bool,
     dead: bool,
     // ---- broker
     to_host: Vec<Wire>,
@@ -356,6 +390,12 @@ struct World {
     session_of_id: BTreeMap<i64, u64>,
     settling: bool,
     settle_pub: BTreeMap<u32, i64>,
+    /// metric names of the latest birth payload of each object the node's client accepted
+    birth_names: BTreeMap<u32, BTreeSet<String>>,
+    /// a `mset` step was executed: the settling publishes carry two metrics (the second is the extra one)
+    mset_used: bool,
+    /// the `ans=` printed on the delivery lines of each data message id (strict stores)
+    printed_ans: BTreeMap<i64, bool>,
     // ---- the host's view, from the effects at its stores only
     h_node: Option<bool>,
     h_dev: BTreeMap<u32, bool>,
@@ -368,14 +408,15 @@ struct World {
 }
 
 impl World {
-    fn begin(out: &mut Out, to: u64) -> World {
+    fn begin(out: &mut Out, case: Cfg) -> World {
+        let to = case.to;
         eon::id_mode(Some(1));
         let mut node = eon::Sess::begin(out, 0);
         node.yields = 24;
         let cfg = host::cfg_default(&to.to_string(), 0, 1);
         let op = format!("host new {} now={}", cfg, now_ms());
         let eon_cov = now_ms();
-        let host = node.rt().expect("runtime").block_on(host::Sess::new_here(&op));
+        let host = node.rt().expect("runtime").block_on(host::Sess::new_here(&op, case.strict));
         out.line(&op, "ok");
         let hub_a = node.hub();
         let hub_b = host.hub();
@@ -386,6 +427,7 @@ impl World {
             hub_a,
             hub_b,
             to,
+            strict: case.strict,
             dead: false,
             to_host: vec![],
             to_node: vec![],
@@ -405,6 +447,9 @@ impl World {
             session_of_id: BTreeMap::new(),
             settling: false,
             settle_pub: BTreeMap::new(),
+            birth_names: BTreeMap::new(),
+            mset_used: false,
+            printed_ans: BTreeMap::new(),
             h_node: None,
             h_dev: BTreeMap::new(),
             h_last: BTreeMap::new(),
@@ -569,6 +614,7 @@ impl World {
                 Kind::NBirth | Kind::DBirth => {
                     self.pub_birth.entry(obj).or_default().insert(id);
                     self.session_of_id.insert(id, self.session);
+                    self.birth_names.insert(obj, p.metrics.iter().filter_map(|m| m.name.clone()).collect());
                 }
                 Kind::NData | Kind::DData => {
                     self.pub_data.entry(obj).or_default().insert(id);
@@ -594,7 +640,30 @@ impl World {
 
     fn deliver_to_host(&mut self, out: &mut Out, w: &Wire) {
         let ev = topic_and_payload_to_event(w.topic.clone(), w.bytes.clone());
-        match render_host_ev(&ev) {
+        // the answer the recording store will give when the message is applied (the model's `ans=`): with
+        // strict stores a data message naming a metric the store's last birth did not define is `unk`.
+        // Read before the delivery: a node store's set only changes at an NBIRTH, which discards whatever
+        // waits in the resequencer; device data only ever name `id` and `m`, which every birth defines.
+        let mut ans = "ok";
+        if self.strict {
+            let (label, payload) = match &ev {
+                Event::Node(nm) if nm.message.kind == MessageKind::Data => (Some("n1".to_string()), Some(&nm.message.payload)),
+                Event::Device(dm) if dm.message.kind == MessageKind::Data => (Some(format!("n1:{}", dm.device_id)), Some(&dm.message.payload)),
+                _ => (None, None),
+            };
+            if let (Some(label), Some(p)) = (label, payload) {
+                if let Some(known) = self.host.store(&label).birth_names {
+                    if !p.metrics.iter().all(|m| m.name.as_ref().map(|n| known.contains(n)).unwrap_or(true)) {
+                        ans = "unk";
+                        out.count("strict-store:predicted-unknown-metric");
+                    }
+                }
+                if let Some(id) = id_of(p) {
+                    self.printed_ans.insert(id, ans == "ok");
+                }
+            }
+        }
+        match render_host_ev(&ev, ans) {
             Some(body) => {
                 self.deliveries += 1;
                 out.count(&format!("delivered:to-host:{}", w.kind.name()));
@@ -793,6 +862,13 @@ impl World {
                 }
             }
             Step::DeliverAll => self.deliver_all(out),
+            Step::MSet(k) => {
+                self.mset_used = true;
+                let obs = self.eon_line(out, &format!("rule mset {}", k), None);
+                if obs != "-" {
+                    out.fail("LOOP:wire", "mset-observed", format!("`rule mset {}` => {}", k, obs));
+                }
+            }
         }
         // successive steps never share a millisecond
         if now_ms() == before && !self.dead {
@@ -856,7 +932,19 @@ impl World {
                         out.fail("C08:no-data-from-stale-session", f, here());
                     }
                     self.check_session(out, "data", id, &here());
-                    self.h_last.insert(obj, id);
+                    // the store's own verdict (harness code): a rejected update is not a recorded value
+                    let label = if obj == 0 { "n1".to_string() } else { format!("n1:d{}", obj) };
+                    let accepted = self.host.store(&label).verdicts.iter().rev().find(|v| v.0 == id).map(|v| v.1).unwrap_or(true);
+                    if let Some(printed) = self.printed_ans.get(&id) {
+                        if *printed != accepted {
+                            out.fail("LOOP:ans-prediction", name, format!("the line of message {} said ans={} but the store answered {}; {}", id, if *printed { "ok" } else { "unk" }, if accepted { "ok" } else { "unk" }, here()));
+                        }
+                    }
+                    if accepted {
+                        self.h_last.insert(obj, id);
+                    } else {
+                        out.count("strict-store:data-rejected");
+                    }
                 }
                 "ncmd" => out.count("host:ncmd"),
                 _ => {}
@@ -911,7 +999,18 @@ impl World {
         }
         let mut objs = vec![0u32];
         objs.extend((1..=NDEV).filter(|d| self.reg.contains(d) && self.en.contains(d)));
-        for o in objs {
+        let label = |o: u32| if o == 0 { "n1".to_string() } else { format!("n1:d{}", o) };
+        // strict stores: the node's latest settling publish (it carries the extra metric of the node's
+        // latest birth) was answered UnknownMetric
+        if let Some(p) = self.settle_pub.get(&0) {
+            if self.host.store("n1").verdicts.iter().rev().find(|v| v.0 == *p).map(|v| !v.1).unwrap_or(false) {
+                return Err((
+                    "stale-metric-rejected-forever".into(),
+                    format!("the node store still answers UnknownMetric to the node's settling publish {} (store's birth names {:?}, node's latest NBIRTH {:?})", p, self.host.store("n1").birth_names, self.birth_names.get(&0)),
+                ));
+            }
+        }
+        for o in objs.clone() {
             match (self.settle_pub.get(&o), self.h_last.get(&o)) {
                 (Some(p), Some(h)) if p == h => {}
                 (p, h) => {
@@ -920,6 +1019,23 @@ impl World {
                         format!("object {}: last id the node's client accepted in the settling phase {:?}, last id recorded by the host store {:?}", o, p, h),
                     ))
                 }
+            }
+        }
+        // "exactly the metric set the node published": the name set of the last birth the store was
+        // given = the name set of the latest birth payload of that object the node handed over
+        for o in objs {
+            let held = self.host.store(&label(o)).birth_names;
+            let published = self.birth_names.get(&o).cloned();
+            if held != published {
+                let h = held.clone().unwrap_or_default();
+                let p = published.clone().unwrap_or_default();
+                return Err((
+                    if o == 0 { "metric-set".into() } else { "metric-set:device".into() },
+                    format!(
+                        "object {}: the host store was last given the metric names {:?}, the node's latest birth payload carries {:?} (missing at the host {:?}, outdated at the host {:?})",
+                        o, held, published, p.difference(&h).collect::<Vec<_>>(), h.difference(&p).collect::<Vec<_>>()
+                    ),
+                ));
             }
         }
         Ok(())
@@ -944,7 +1060,9 @@ impl World {
             let to = self.to + 1;
             self.host_line(out, &format!("adv {}", to), None, to, None);
             self.deliver_all(out);
-            self.eon_line(out, "pub node blk n=1", None);
+            // after a `mset` the node's publish carries the extra metric of its latest birth as well
+            let n = if self.mset_used { 2 } else { 1 };
+            self.eon_line(out, &format!("pub node blk n={}", n), None);
             let live: Vec<u32> = self.reg.iter().filter(|d| self.en.contains(d)).cloned().collect();
             for d in live {
                 self.eon_line(out, &format!("pub dev {} blk n=1", d), None);
@@ -991,9 +1109,9 @@ impl World {
 // ------------------------------------------------------------------------------------------
 
 /// run a fixed schedule; returns the case's line log
-fn run_schedule(out: &mut Out, to: u64, steps: &[Step]) -> Vec<(String, String)> {
-    let desc = show_desc(to, steps);
-    let mut w = World::begin(out, to);
+fn run_schedule(out: &mut Out, cfg: Cfg, steps: &[Step]) -> Vec<(String, String)> {
+    let desc = show_desc(cfg, steps);
+    let mut w = World::begin(out, cfg);
     out.set_desc(desc.clone());
     for s in steps {
         out.count(&format!("step:{}", s.class()));
@@ -1007,11 +1125,14 @@ fn run_schedule(out: &mut Out, to: u64, steps: &[Step]) -> Vec<(String, String)>
 const MODES: [&str; 4] = ["try", "blk", "trysort", "blksort"];
 
 /// a random fault schedule, generated while it runs (the choices look at the queues)
-fn random_case(out: &mut Out, rng: &mut Rng, len_lo: u64, len_hi: u64) -> (u64, Vec<Step>) {
+fn random_case(out: &mut Out, rng: &mut Rng, len_lo: u64, len_hi: u64) -> (Cfg, Vec<Step>) {
     let to = *rng.pick(&[50u64, 50, 200, 3000]);
     let ndev = rng.range(1, NDEV as u64) as u32;
     let len = rng.range(len_lo, len_hi) as usize;
-    let mut w = World::begin(out, to);
+    // a third of the cases change the metric set between births; half of those with strict stores
+    let msets = rng.chance(1, 3);
+    let cfg = Cfg { to, strict: msets && rng.chance(1, 2) };
+    let mut w = World::begin(out, cfg);
     let mut steps: Vec<Step> = vec![];
     let mut go = |w: &mut World, out: &mut Out, steps: &mut Vec<Step>, s: Step| {
         out.count(&format!("step:{}", s.class()));
@@ -1029,6 +1150,9 @@ fn random_case(out: &mut Out, rng: &mut Rng, len_lo: u64, len_hi: u64) -> (u64, 
                 go(&mut w, out, &mut steps, Step::En(d));
             }
         }
+    }
+    if msets && rng.chance(1, 2) {
+        go(&mut w, out, &mut steps, Step::MSet(rng.range(1, eon::MSET_MAX as u64) as u32));
     }
     if rng.chance(9, 10) {
         go(&mut w, out, &mut steps, Step::NodeOn);
@@ -1098,6 +1222,7 @@ fn random_case(out: &mut Out, rng: &mut Rng, len_lo: u64, len_hi: u64) -> (u64, 
             90..=92 => Step::NRebirth,
             93..=93 => Step::DRebirth(d),
             94..=95 => Step::Adv(*rng.pick(&[1, to / 2, to - 1, to + 1])),
+            96..=99 if msets => Step::MSet(rng.range(0, eon::MSET_MAX as u64) as u32),
             _ => {
                 // fall-backs of the guarded arms: ordinary traffic
                 if rng.chance(1, 2) {
@@ -1109,13 +1234,16 @@ fn random_case(out: &mut Out, rng: &mut Rng, len_lo: u64, len_hi: u64) -> (u64, 
         };
         go(&mut w, out, &mut steps, s);
     }
-    let desc = show_desc(to, &steps);
+    let desc = show_desc(cfg, &steps);
     out.set_desc(desc.clone());
     out.nontrivial();
     out.count("case:random");
     out.count(&format!("cfg:timeout={}", to));
+    if msets {
+        out.count(if cfg.strict { "cfg:metric-set-changes:strict-stores" } else { "cfg:metric-set-changes:lenient-stores" });
+    }
     w.finish(out, &desc);
-    (to, steps)
+    (cfg, steps)
 }
 
 /// the scripted scenarios: (name, descriptor, note)
@@ -1138,6 +1266,15 @@ fn scripts() -> Vec<(&'static str, String, &'static str)> {
         ("manual-rebirth-with-reordered-births", "to=50 | non reg1 en1 reg2 en2 da pn:blk:1 nrb dl3 dl2 dl1 dl0 da", "NodeHandle::rebirth(): the NBIRTH and the two DBIRTHs arrive in reverse order, after a data message of the old session"),
         ("ncmd-dropped-and-duplicated", "to=3000 | hoff non hon pn:blk:1 dl0 dropn0 pn:blk:1 dl0 dupn0 dn0 da", "the host's rebirth NCMD (QoS 0) is lost once, then delivered twice"),
         ("partial-fill-timeout", "to=50 | non da pn:blk:1 pn:blk:1 pn:blk:1 dl2 adv30 dl0 adv25 da", "a gap of two messages whose head is filled late: the rest of the gap times out"),
+        ("mset-manual-rebirth-same-bdseq", "to=3000 | non reg1 en1 da pn:blk:1 da mset1 nrb da", "the node's metric set changes (x1 added) and NodeHandle::rebirth() publishes it; the host holds the node birthed with the same bdSeq"),
+        ("mset-manual-rebirth-same-bdseq-strict-stores", "to=3000 st=1 | non reg1 en1 da pn:blk:1 da mset1 nrb da", "the same with stores that answer UnknownMetric to data for a name their last birth did not define: the settling publish of x1 is rejected, the host asks for a rebirth"),
+        ("mset-metric-dropped-strict-stores", "to=3000 st=1 | mset1 non reg1 en1 da pn:blk:2 da mset0 nrb da", "the rebirth DROPS a metric: no data message can make even a strict store notice"),
+        ("mset-rebirth-nbirth-lost-strict-stores", "to=3000 st=1 | non da mset1 nrb drop0 da", "the rebirth's NBIRTH (QoS 0) is lost and nothing had been sent in the previous session, so the sequence numbers line up and the host cannot see the rebirth; only the store's UnknownMetric answer to the data for x1 can tell it"),
+        ("mset-ncmd-rebirth", "to=3000 | hoff non hon mset2 pn:blk:1 da", "a rebirth requested by the host (data from a node it does not know): the host holds the node stale, so it hands the NBIRTH to the store"),
+        ("mset-ncmd-rebirth-duplicated", "to=3000 | hoff non hon mset1 pn:blk:1 dl0 dupn0 dl0 mset2 dn0 da", "the host's rebirth NCMD is delivered twice and the metric set changes between the two rebirths: the second NBIRTH finds the host birthed with the same bdSeq"),
+        ("mset-reconnect", "to=3000 | non reg1 en1 da mset3 noff da non da", "the metric set changes while the node is disconnected: the next session has a new bdSeq"),
+        ("mset-reconnect-will-lost-to-host-offline", "to=3000 | non reg1 en1 da hoff mset3 noff non hon da", "reconnect with a new metric set while the host is away"),
+        ("mset-device-rebirth", "to=3000 | non reg1 en1 da mset2 drb1 da", "a device rebirth carries the new set (DBIRTHs are always handed to the device store)"),
         ("unregister-with-ddata-in-flight", "to=3000 | non reg1 en1 reg2 en2 da pd1:blk:1 unreg1 dl1 dl0 pd2:blk:1 da", "a device is removed while its last DDATA is in flight; its DDEATH overtakes it"),
     ];
     v.into_iter().map(|(a, b, c)| (a, b.to_string(), c)).collect()
@@ -1146,8 +1283,8 @@ fn scripts() -> Vec<(&'static str, String, &'static str)> {
 fn scripted(out: &mut Out, write_corpus: Option<&PathBuf>) {
     for (name, desc, note) in scripts() {
         let desc = &desc[..];
-        let (to, steps) = parse_desc(desc).unwrap_or_else(|| panic!("bad script {}", name));
-        let log = run_schedule(out, to, &steps);
+        let (cfg, steps) = parse_desc(desc).unwrap_or_else(|| panic!("bad script {}", name));
+        let log = run_schedule(out, cfg, &steps);
         out.count("case:scripted");
         out.count(&format!("scripted:{}", name));
         if let Some(dir) = write_corpus {
@@ -1166,7 +1303,7 @@ fn write_case(dir: &PathBuf, name: &str, desc: &str, log: &[(String, String)], n
 }
 
 /// does the schedule fail with the signature `clause:feature`? (scratch run)
-fn fails_with(scratch: &PathBuf, to: u64, steps: &[Step], sig: &str) -> bool {
+fn fails_with(scratch: &PathBuf, to: Cfg, steps: &[Step], sig: &str) -> bool {
     // the order of the DBIRTHs after an NBIRTH is not reproducible (srad-internal HashMap): a few tries
     for _ in 0..3 {
         let mut o = Out::new(scratch);
@@ -1179,7 +1316,7 @@ fn fails_with(scratch: &PathBuf, to: u64, steps: &[Step], sig: &str) -> bool {
 }
 
 /// drop steps while the schedule still fails with the same signature
-fn minimise(scratch: &PathBuf, to: u64, steps: &[Step], sig: &str) -> Vec<Step> {
+fn minimise(scratch: &PathBuf, to: Cfg, steps: &[Step], sig: &str) -> Vec<Step> {
     let mut cur: Vec<Step> = steps.to_vec();
     // the failure may depend on srad-internal nondeterminism: require it to reproduce at all
     if !fails_with(scratch, to, &cur, sig) {
@@ -1204,7 +1341,7 @@ fn minimise(scratch: &PathBuf, to: u64, steps: &[Step], sig: &str) -> Vec<Step> 
     cur
 }
 
-pub const RULE: &str = "closed loop of the real EoN and the real Application through a simulated broker carrying the real wire form (topic strings, prost bytes), one paused runtime, one mock clock, both rebirth cooldowns 0, resequencing on, reorder timeout 50 / 200 / 3000 ms: (a) scripted scenarios (clean start, lost DDATA -> gap -> timeout -> NCMD -> rebirth, host started late, lost NBIRTH, duplicate NDATA, node disconnect with will, will overtaken by the new NBIRTH, host disconnect during traffic, DDEATH overtaking / overtaken, manual rebirth with reordered births, NCMD lost / duplicated, partial gap fill, unregister in flight); (b) random fault schedules of 10-40 (thorough: 20-120) steps over deliver-oldest / deliver-reordered / hold / drop QoS 0 / duplicate / node disconnect with will / host disconnect / time, interleaved with publishes on the node and up to 3 devices (4 publish modes, 1-3 metrics), enable / disable / register / unregister, node and device rebirths; every schedule is followed by the fault-free settling phase (<= 6 rounds of deliver-all, timeout, deliver-all, publish on every live object, deliver-all). Every node-side step is an `eon stim` line, every delivery to the host a `host ev` line (both models validated in the loop). Non-trivial = every case; distinct = distinct request-line sequences (hashed).";
+pub const RULE: &str = "closed loop of the real EoN and the real Application through a simulated broker carrying the real wire form (topic strings, prost bytes), one paused runtime, one mock clock, both rebirth cooldowns 0, resequencing on, reorder timeout 50 / 200 / 3000 ms: (a) scripted scenarios (clean start, lost DDATA -> gap -> timeout -> NCMD -> rebirth, host started late, lost NBIRTH, duplicate NDATA, node disconnect with will, will overtaken by the new NBIRTH, host disconnect during traffic, DDEATH overtaking / overtaken, manual rebirth with reordered births, NCMD lost / duplicated, partial gap fill, unregister in flight); (b) random fault schedules of 10-40 (thorough: 20-120) steps over deliver-oldest / deliver-reordered / hold / drop QoS 0 / duplicate / node disconnect with will / host disconnect / time, interleaved with publishes on the node and up to 3 devices (4 publish modes, 1-3 metrics), enable / disable / register / unregister, node and device rebirths, and (a third of the cases) changes of the metric set the next births carry (extra metric x<k> added / replaced / dropped; lenient or strict recording stores at the host); every schedule is followed by the fault-free settling phase (<= 6 rounds of deliver-all, timeout, deliver-all, publish on every live object, deliver-all). Every node-side step is an `eon stim` line, every delivery to the host a `host ev` line (both models validated in the loop). Non-trivial = every case; distinct = distinct request-line sequences (hashed).";
 
 fn opt_path(args: &Args, key: &str) -> Option<PathBuf> {
     args.rest.iter().position(|a| a == key).and_then(|i| args.rest.get(i + 1)).map(PathBuf::from)
@@ -1214,6 +1351,7 @@ pub fn run(args: &Args, out: &mut Out) -> &'static str {
     eon::install_hook();
     eon::token();
     eon::token_id();
+    eon::token_x(1);
     let mut rng = Rng::new(args.seed);
     let th = args.thorough();
     // `--write-corpus DIR`: (re)write the scripted scenarios as replayable corpus cases
@@ -1258,6 +1396,7 @@ pub fn replay(desc: &str, _ops: &[String], out: &mut Out) {
     eon::install_hook();
     eon::token();
     eon::token_id();
+    eon::token_x(1);
     match parse_desc(desc) {
         Some((to, steps)) => {
             run_schedule(out, to, &steps);
